@@ -644,9 +644,18 @@ class NoteEvent(EventType, partial_events=(
     def play(self):  # NOTE: No server parameter.
         # NOTE: Later, if events are not for storing data there
         # is no need to update its fields. I haven't decided yet.
+        # The detuned frequency is what is sent as freq, the keys given by
+        # the user are left as they were so the event can be played again.
+        freq = self.get('freq', self)
         self['freq'] = self._detuned_freq()  # Before _get_msg_params.
-        param_list = self._get_msg_params()  # Populates synth_desc.
-        self['instrument'] = instrument = self._synthdef_name()
+        try:
+            param_list = self._get_msg_params()  # Populates synth_desc.
+        finally:
+            if freq is self:
+                del self['freq']
+            else:
+                self['freq'] = freq
+        instrument = self._synthdef_name()
         self['server'] = server = self('server')
 
         self['node_id'] = node_id = server._next_node_id()
